@@ -1,6 +1,7 @@
 package rt
 
 import (
+	"fmt"
 	"errors"
 	"io"
 	"net"
@@ -68,7 +69,7 @@ type Conn struct {
 	failed     bool // a reset cut fired: this end's writes fail too
 }
 
-var ErrClosed = errors.New("simconn: use of closed connection")
+var ErrClosed = fmt.Errorf("simconn: %w", net.ErrClosed) // as a TCP connection reports a local close (net.Pipe would say io.ErrClosedPipe)
 var ErrReset = errors.New("simconn: connection reset by peer")
 
 func NewPipePair(capacity int, an, bn string) (*Conn, *Conn) {
